@@ -84,6 +84,9 @@ var outcomes = []outcome{
 	{Class: "zero_incr", Reply: "10,0"},
 	{Class: "negative_incr", Reply: "10,-5"},
 	{Class: "one_field", Reply: "10"},
+	// well-formed "int,int" prefix followed by garbage (seed c34-5: a prefix-scanning parse accepts these)
+	{Class: "digits_then_garbage_incr", Reply: "10,5abc"},
+	{Class: "three_fields", Reply: "10,5,7"},
 	{Class: "no_rows"},
 }
 
